@@ -19,9 +19,11 @@ type subscribeTransaction struct {
 	handler *handler1
 	log     util.Logger
 	topicID uint16
+	// The topic registered under topicID by the SUBSCRIBE (empty if none).
+	topic string
 }
 
-func newSubscribeTransaction(ctx context.Context, h *handler1, msgID uint16, topicID uint16) *subscribeTransaction {
+func newSubscribeTransaction(ctx context.Context, h *handler1, msgID uint16, topicID uint16, newTopic string) *subscribeTransaction {
 	tLog := h.log.WithTag(fmt.Sprintf("REGISTERc(%d)", msgID))
 	tLog.Debug("Created.")
 	return &subscribeTransaction{
@@ -35,6 +37,7 @@ func newSubscribeTransaction(ctx context.Context, h *handler1, msgID uint16, top
 		handler: h,
 		log:     tLog,
 		topicID: topicID,
+		topic:   newTopic,
 	}
 }
 
@@ -53,6 +56,10 @@ func (t *subscribeTransaction) Suback(mqSuback *mqPkts.SubackPacket) error {
 	if mqSuback.ReturnCodes[0] <= 2 {
 		returnCode = snPkts1.RC_ACCEPTED
 		grantedQOS = mqSuback.ReturnCodes[0]
+		// The client learns the TopicID from the SUBACK.
+		if t.topic != "" {
+			t.handler.topicAnnounced(t.topicID, t.topic)
+		}
 		t.Success()
 	} else {
 		returnCode = snPkts1.RC_NOT_SUPPORTED
